@@ -28,7 +28,9 @@ Families ==
               \* the finest one-field perturbations: each affine coefficient changed by less than a hundredth (of a metre / of a pixel),
               \* and two fine lon/lat grids whose coefficients agree to 4 decimals
               \cup {[t |-> "geobox", shape |-> <<3, 4>>, aff |-> a, crs |-> c] :
-                  a \in {"tiny_a", "tiny_b", "tiny_c", "tiny_d", "tiny_e", "tiny_f", "deg_fine", "deg_fine2", "deg_fine_shift"}, c \in {CrsA, CrsA2}},
+                  a \in {"tiny_a", "tiny_b", "tiny_c", "tiny_d", "tiny_e", "tiny_f", "deg_fine", "deg_fine2", "deg_fine_shift",
+                        \* a chain of origins 6e-6 apart (below any "almost equal" threshold taken pairwise, above it end to end)
+                        "eps_c1", "eps_c2", "eps_c3"}, c \in {CrsA, CrsA2}},
     geom |-> {[t |-> "geom", kind |-> k, v |-> v, crs |-> c] :
                 k \in {"point", "line", "polygon", "polyhole", "multipoint", "multipolygon", "collection"}, v \in {0, 1}, c \in {NoCrs, CrsA, CrsA2, CrsB}},
     tiles |-> {[t |-> "tiles", base |-> b, tile |-> s] : b \in {<<10, 10>>, <<11, 10>>, <<10, 11>>, <<12, 12>>, <<8, 8>>}, s \in {<<4, 4>>, <<4, 5>>, <<5, 4>>, <<12, 12>>}},
